@@ -24,6 +24,7 @@ import (
 	"log"
 	"os"
 	"path/filepath"
+	"strconv"
 	"strings"
 
 	"github.com/uhn/ggql/pkg/ggql"
@@ -229,7 +230,7 @@ Usage: ggqlgen [options] [<schema-file>...]
 			}
 			if e.types[defKey(t)] {
 				buf = append(buf, '\n')
-				buf = append(buf, t.SDL(true)...)
+				buf = appendRaw(buf, t.SDL(true))
 			}
 		}
 		buf = append(buf, "`\n"...)
@@ -312,14 +313,49 @@ func getSDL(path string) ([]byte, error) {
 	}
 	for _, spec := range gen.Specs {
 		if vspec, ok := spec.(*ast.ValueSpec); ok {
-			if literal, ok := vspec.Values[0].(*ast.BasicLit); ok && literal.Kind == token.STRING && literal.Value[0] == '`' {
-				// Strip the literal of its backtics and set as the SDL
-				return []byte(strings.Trim(literal.Value, "`")), nil
+			if sdl, ok := constString(vspec.Values[0]); ok {
+				return []byte(sdl), nil
 			}
 			break
 		}
 	}
 	return nil, err
+}
+
+// constString returns the value of a constant made of string literals joined
+// with +, the form the embed option writes.
+func constString(e ast.Expr) (string, bool) {
+	switch te := e.(type) {
+	case *ast.BasicLit:
+		if te.Kind == token.STRING {
+			s, err := strconv.Unquote(te.Value)
+			return s, err == nil
+		}
+	case *ast.BinaryExpr:
+		if te.Op == token.ADD {
+			x, xok := constString(te.X)
+			y, yok := constString(te.Y)
+			return x + y, xok && yok
+		}
+	}
+	return "", false
+}
+
+// appendRaw appends s as the inside of a Go raw string literal. A raw string
+// can not hold a backtick and carriage returns are dropped from it so those
+// are spliced in as interpreted strings.
+func appendRaw(buf []byte, s string) []byte {
+	for i := 0; i < len(s); i++ {
+		switch s[i] {
+		case '`':
+			buf = append(buf, "` + \"`\" + `"...)
+		case '\r':
+			buf = append(buf, "` + \"\\r\" + `"...)
+		default:
+			buf = append(buf, s[i])
+		}
+	}
+	return buf
 }
 
 func stubGen(root *ggql.Root) (err error) {
